@@ -287,8 +287,44 @@ def job_edges(job):
     return stats, viols
 
 
+@common.job
+def job_inh_edges(job):
+    """edge prediction over the inheritance family: one asset of every type, fully linked"""
+    shapes, depth4 = job
+    from maltoolbox.attackgraph import AttackGraph
+    from maltoolbox.model import Model
+    stats, viols = {}, []
+    for shape in shapes:
+        sp = families.inh_lang(shape, depth4=depth4)
+        fx = langs.fixture(sp)
+        L = sem.Lang(sp)
+        lsteps = {(s.asset.name, s.name): s for s in fx.lang_graph.attack_steps}
+        m = Model('m', fx.factory)
+        objs = [getattr(fx.ns, a['name'])(name='x' + a['name']) for a in sp['assets']]
+        for o in objs:
+            m.add_asset(o)
+        g = AttackGraph(fx.lang_graph, m)
+        g2 = AttackGraph(fx.lang_graph, m)          # (a second generation on the same language graph)
+        stats['graphs'] = stats.get('graphs', 0) + 2
+        for gg in (g, g2):
+            for n in gg.nodes:
+                src = lsteps.get((str(n.asset.type), n.name))
+                for ch in n.children:
+                    stats['edges'] = stats.get('edges', 0) + 1
+                    if not any(L.is_sub(str(ch.asset.type), tgt.asset.name) for tgt, _c in (src.children.get(ch.name, []) if src else [])):
+                        viols.append(common.Violation('edge_not_predicted:inheritance_family',
+                                                      f'attack-graph edge {n.full_name} -> {ch.full_name} has no language-graph link',
+                                                      case={'shape': shape}).to_json())
+                        break
+        if len(viols) > 5:
+            break
+    return stats, viols
+
+
 def _dispatch(job):
     k = job[0]
+    if k == 'inh_edges':
+        return job_inh_edges(job[1])
     if k == 'dangling':
         return job_dangling(job[1])
     if k == 'edges':
@@ -334,6 +370,9 @@ def run(tier, seed):
     chunks, models = c01._plan_data(eplan2)
     for ci in range(len(chunks)):
         jobs.append(('edges', (eplan2, ci, 0, len(models))))
+    shapes = families.inh_shapes(False)
+    for i in range(0, len(shapes), 12):
+        jobs.append(('inh_edges', (shapes[i:i + 12], False)))
     jobs = common.rotate(jobs, seed)
     for stats, viols in common.pmap(_dispatch, jobs):
         res.merge_counts(stats)
